@@ -277,8 +277,8 @@ CONTRACTS = {
              ('solves-never-decrease', 'solves() >= old(solves())'), ('earlier-history-unchanged', 'forall(u, implies(u < old(solves()), hist(u) == old(hist(u))))'), ('solve-recorded', 'implies(solves() > old(solves()), self.solve_performed) and implies(solves() == old(solves()), self.solve_performed == old(self.solve_performed))')]),
 
  M + 'add_constraints': dict(inline=True,
-    loops={0: dict(invariant=['load_balancing_constraints_needed == exists(t, 0, _k, optimisation_options[t][0] == Optimisation_options.LOADMAXBAL'
-                              ' or optimisation_options[t][0] == Optimisation_options.LOADSUMBAL or optimisation_options[t][0] == Optimisation_options.MINCOSTLSB)'])}),
+    loops={0: dict(invariant=[('load-balancing-constraints-needed-iff-lmb-lsb-or-mincostlsb-requested', 'load_balancing_constraints_needed == exists(t, 0, _k, optimisation_options[t][0] == Optimisation_options.LOADMAXBAL'
+                              ' or optimisation_options[t][0] == Optimisation_options.LOADSUMBAL or optimisation_options[t][0] == Optimisation_options.MINCOSTLSB)')])}),
 
  # ---- C02 / C14: the whole LP run: constraints, criteria in order, at least one solve, the status of the last solve is returned
  M + 'run': dict(
